@@ -57,13 +57,16 @@ def gen(rng, i, tier):
         # parameters after the note data are ordinary content of the text
         parts = [rng.choice(["#NOTEDATA:;", "#notedata:;", "#NOTEDATA;", "#NOTEDATA:x;"])]
         for _ in range(rng.randrange(0, 6)):
-            parts.append(rng.choice(["#STEPSTYPE:dance-single;", "#METER:3;", "#NOTEDATA:;", "#NOTEDATA;", "#CREDIT;", "#DISPLAYBPM:60:120;", "#meter:4;", "#X:a\\:b;", "#NOTES2:11;"]))
+            parts.append(rng.choice(["#STEPSTYPE:dance-single;", "#METER:3;", "#NOTEDATA:;", "#NOTEDATA;", "#CREDIT;", "#DISPLAYBPM:60:120;", "#meter:4;", "#X:a\\:b;", "#NOTES2:11;",
+                                     "#CREDIT:a\n \nb;", "#CHARTNAME:two\n\t\nlines ;", "#RADARVALUES:\n   0,0,\n   0 ;"]))      # values with blank-only and indented lines
             parts.append(rng.choice(["", "\n", "\n\n"]))
         if rng.random() < 0.8:
             parts.append(rng.choice(["#NOTES:0000\n0000;", "#NOTES2:1000;", "#NOTES;", "#notes:0;"]))
         if rng.random() < 0.3:
             parts.append(rng.choice(["#CREDIT:after the notes;", "#NOTEDATA:;#NOTES:1;"]))
         t = ["lit", "".join(parts)]
+        if rng.random() < 0.2:                 # the whole text indented alike, as in a triple-quoted literal
+            t = ["lit", "\n".join("    " + ln for ln in t[1].split("\n"))]
     else:
         t = ["lit", G.rand_msd_text(rng)]
     return {"t": t, "strict": rng.random() < 0.5, "names": rng.sample(NAMES, 3)}
